@@ -191,15 +191,15 @@ Definition verdict_call (path : string) (route rk ri : Z) (args : list (Z * Z)) 
 (* ------------------------------------------------------- source text stream *)
 
 Definition pinned_sources : list (Z * list Z) := [
-  (17, [110; 101; 119; 32; 70; 117; 110; 99; 116; 105; 111; 110; 40; 34; 125; 41; 44; 40; 102; 117; 110; 99; 116; 105; 111; 110; 40; 41; 123; 34; 41]) (* new Function("}),(function(){") *);
-  (17, [110; 101; 119; 32; 70; 117; 110; 99; 116; 105; 111; 110; 40; 34; 97; 34; 44; 32; 34; 125; 41; 44; 40; 102; 117; 110; 99; 116; 105; 111; 110; 40; 41; 123; 34; 41]) (* new Function("a", "}),(function(){") *);
   (10, [102; 117; 110; 99; 116; 105; 111; 110; 32; 102; 40; 41; 123; 97; 58; 32; 105; 102; 40; 49; 41; 32; 98; 114; 101; 97; 107; 32; 97; 59; 32; 114; 101; 116; 117; 114; 110; 32; 55; 125; 32; 116; 121; 112; 101; 111; 102; 32; 102; 40; 41]) (* function f(){a: if(1) break a; return 7} typeof f() *)
 ].
 
-(* witnesses of repaired findings (06c26f0, e04eec8, 11c8465, 8a02cb3, dae90c4, c76d7ee), with the
+(* witnesses of repaired findings (06c26f0, e04eec8, 11c8465, 8a02cb3, dae90c4, c76d7ee, 2cabc07: SyntaxError), with the
    outcome ES5 / the property asks for (8: the thrown object comes back as the error result): kept as
    regression cases, through Run *)
 Definition regression_sources : list (Z * list Z) := [
+  (5, [110; 101; 119; 32; 70; 117; 110; 99; 116; 105; 111; 110; 40; 34; 125; 41; 44; 40; 102; 117; 110; 99; 116; 105; 111; 110; 40; 41; 123; 34; 41]) (* new Function("}),(function(){") *);
+  (5, [110; 101; 119; 32; 70; 117; 110; 99; 116; 105; 111; 110; 40; 34; 97; 34; 44; 32; 34; 125; 41; 44; 40; 102; 117; 110; 99; 116; 105; 111; 110; 40; 41; 123; 34; 41]) (* new Function("a", "}),(function(){") *);
   (0, [43; 83; 116; 114; 105; 110; 103; 46; 102; 114; 111; 109; 67; 104; 97; 114; 67; 111; 100; 101; 40; 52; 57; 41]) (* +String.fromCharCode(49) *);
   (6, [110; 101; 119; 32; 40; 77; 97; 116; 104; 46; 109; 97; 120; 46; 98; 105; 110; 100; 40; 110; 117; 108; 108; 41; 41; 40; 49; 41]) (* new (Math.max.bind(null))(1) *);
   (0, [118; 97; 114; 32; 111; 61; 123; 125; 59; 32; 79; 98; 106; 101; 99; 116; 46; 100; 101; 102; 105; 110; 101; 80; 114; 111; 112; 101; 114; 116; 121; 40; 111; 44; 39; 120; 39; 44; 123; 103; 101; 116; 58; 102; 117; 110; 99; 116; 105; 111; 110; 40; 41; 123; 114; 101; 116; 117; 114; 110; 32; 49; 125; 44; 99; 111; 110; 102; 105; 103; 117; 114; 97; 98; 108; 101; 58; 116; 114; 117; 101; 125; 41; 59; 32; 79; 98; 106; 101; 99; 116; 46; 100; 101; 102; 105; 110; 101; 80; 114; 111; 112; 101; 114; 116; 121; 40; 111; 44; 39; 120; 39; 44; 123; 119; 114; 105; 116; 97; 98; 108; 101; 58; 116; 114; 117; 101; 125; 41; 59; 32; 79; 98; 106; 101; 99; 116; 46; 103; 101; 116; 79; 119; 110; 80; 114; 111; 112; 101; 114; 116; 121; 68; 101; 115; 99; 114; 105; 112; 116; 111; 114; 40; 111; 44; 39; 120; 39; 41]) (* var o={}; Object.defineProperty(o,'x',{get:function(){return 1},configurable:true}); Object.defineProperty(o,'x',{writable:true}); Object.getOwnPropertyDescriptor(o,'x') *);
